@@ -53,6 +53,7 @@ func (f *PathnameDirectory) Call(s *slip.Scope, args slip.List, depth int) slip.
 	if !ok {
 		slip.TypePanic(s, depth, "pathname", args[0], "string")
 	}
+	_, _ = slip.GetArgsKeyValue(args[1:], slip.Symbol(":case")) // ignored but must be well formed
 	var result slip.List
 	parts := strings.Split(string(path), "/")
 	if 1 < len(parts) {
